@@ -363,6 +363,9 @@ func c08Vocabulary() []c08Construct {
 			switch n {
 			case "round":
 				out = append(out, c08Construct{Expr: "round(m0, 5)", Type: f.ReturnType, Feat: "fn:round"})
+				out = append(out, c08Construct{Expr: "round(m1, 1)", Type: f.ReturnType, Feat: "fn:round"})
+				out = append(out, c08Construct{Expr: "round(m1, 0.5)", Type: f.ReturnType, Feat: "fn:round"})
+				out = append(out, c08Construct{Expr: "round(m1)", Type: f.ReturnType, Feat: "fn:round"})
 			case "days_in_month", "day_of_month", "day_of_week", "day_of_year", "hour", "minute", "month", "year":
 				out = append(out, c08Construct{Expr: n + "()", Type: f.ReturnType, Feat: "fn:" + n})
 			}
@@ -450,7 +453,7 @@ func c08Queries() []string {
 }
 
 func (c08Prop) NumCases(tier string) int {
-	n := len(c08Queries()) * 2
+	n := len(c08Queries()) * 3
 	if tier == "thorough" {
 		return n + 120000
 	}
@@ -463,11 +466,12 @@ func (c08Prop) Gen(seed uint64, tier string, i int) Case {
 	c := Case{Prop: "C08", Kind: "vocabulary", Seed: seed, Index: i}
 	rng := Window{StartMs: faultStart, EndMs: faultStart + 21*faultStep, StepMs: faultStep}
 	inst := Window{StartMs: faultStart + 10*faultStep, EndMs: faultStart + 10*faultStep}
-	c.Dataset = faultDataset()
+	one := Window{StartMs: faultStart + 10*faultStep, EndMs: faultStart + 10*faultStep, StepMs: faultStep} // a range query of a single step
+	c.Dataset = c08Dataset()
 	c.Engine = EngineCfg{Opt: "none", Procs: 4}
-	if i < len(qs)*2 {
-		c.Query = qs[i/2]
-		c.Window = []Window{inst, rng}[i%2]
+	if i < len(qs)*3 {
+		c.Query = qs[i/3]
+		c.Window = []Window{inst, rng, one}[i%3]
 		return c
 	}
 	// two-level nesting: a construct inside a position inside a position
@@ -496,8 +500,24 @@ func (c08Prop) Gen(seed uint64, tier string, i int) Case {
 		}
 	}
 	c.Query = q
-	c.Window = []Window{inst, rng}[r.Intn(2)]
+	c.Window = []Window{inst, rng, one}[r.Intn(3)]
 	return c
+}
+
+// c08Dataset is the fault-family dataset with m1 carrying negative and half-way values, so that a
+// construct evaluated "approximately" (rounding mode, sign handling) differs from the reference.
+func c08Dataset() Dataset {
+	d := faultDataset()
+	vals := []float64{-3.5, -2.5, -0.5, 0.5, 2.5, -1.25, 7.5, -10, 0, 3}
+	for si := range d.Series {
+		if d.Series[si].Labels["__name__"] != "m1" {
+			continue
+		}
+		for k := range d.Series[si].Samples {
+			d.Series[si].Samples[k].V = vals[(k+si)%len(vals)]
+		}
+	}
+	return d
 }
 
 func counterValues(reg *prometheus.Registry) map[string]float64 {
